@@ -585,6 +585,38 @@ fn search_c05(tier: &str, seed: u64) {
     let thorough = tier == "thorough";
     // names whose field identifiers collide make hash-order dependence visible in suffixes
     let pool: [&str; 8] = ["Foo", "foo", "FOO", "f_o_o", "bar", "Bar", "x", "foo-x"];
+    // name-hint shapes: many distinct names, one name recurring below several parents, at several places and depths
+    {
+        let leaf = |n: &str| Node { name: n.to_string(), attrs: vec![], text: 1, kids: vec![] };
+        let mut shapes: Vec<Node> = Vec::new();
+        for places in 2..6usize {
+            for depth in 1..7usize {
+                let mut root = Node { name: "r".into(), attrs: vec![], text: 0, kids: vec![] };
+                for p in 0..places {
+                    // a chain of `depth` distinct names ending in the recurring name Entry
+                    let mut cur = Node { name: "Entry".into(), attrs: vec![], text: 0, kids: vec![leaf("v")] };
+                    for d in (0..depth).rev() {
+                        cur = Node { name: format!("p{p}d{d}"), attrs: vec![], text: 0, kids: vec![cur] };
+                    }
+                    root.kids.push(cur);
+                }
+                for extra in 0..6 {
+                    root.kids.push(leaf(&format!("x{extra}")));
+                }
+                shapes.push(root);
+            }
+        }
+        for sh in &shapes {
+            let xs = vec![write_doc(sh, &Style::default()).into_bytes()];
+            let key = String::from_utf8_lossy(&xs[0]).into_owned();
+            stats.note(&key);
+            if let Some(e) = check_c05(&xs, if thorough { 60 } else { 30 }) {
+                witness_docs("C05", &xs, &e);
+                stats.print("name-hint shapes: one element name recurring at 2-5 places below chains of 1-6 distinct ancestors, next to 6 unique names; each rendered 31-61 times", "");
+                return;
+            }
+        }
+    }
     let mut rng = Rng(seed ^ 0xc05);
     let n = if thorough { 4000 } else { 500 };
     let st = Style::default();
@@ -624,7 +656,7 @@ fn search_c05(tier: &str, seed: u64) {
             break;
         }
     }
-    stats.print("seeded random sequences of 1-2 documents with repeated parents holding varying subsets of children whose field identifiers collide (Foo/foo/FOO/f_o_o/..); each parsed and rendered 13-25 times in one process (every 4th repetition in a fresh thread; every HashMap instance gets a fresh seed) with three option sets and compared byte for byte, including the Debug form of the tree", &sample);
+    stats.print("seeded random sequences of 1-2 documents with repeated parents holding varying subsets of children whose field identifiers collide (Foo/foo/FOO/f_o_o/..); each parsed and rendered 13-25 times in one process (every 4th repetition in a fresh thread; every HashMap instance gets a fresh seed) with three option sets and compared byte for byte, including the Debug form of the tree; preceded by name-hint shapes (one name recurring at 2-5 places below chains of 1-6 distinct ancestors, next to 6 unique names), each rendered 31 times", &sample);
 }
 
 // ------------------------------------------------------------------------------------------------ C06
@@ -1041,7 +1073,24 @@ fn search_c08(tier: &str, seed: u64) {
 }
 
 // ------------------------------------------------------------------------------------------------ C07
+/// C07 with a watchdog: the case runs in its own thread; no answer within 20 s counts as "does not terminate"
 fn check_c07(inputs: &[Vec<u8>], trim: bool, expand: bool, check_end: bool, cap: usize) -> Option<String> {
+    let (tx, rx) = std::sync::mpsc::channel();
+    let inputs2 = inputs.to_vec();
+    std::thread::Builder::new()
+        .stack_size(8 << 20)
+        .spawn(move || {
+            let r = check_c07_inner(&inputs2, trim, expand, check_end, cap);
+            let _ = tx.send(r);
+        })
+        .ok()?;
+    match rx.recv_timeout(std::time::Duration::from_secs(20)) {
+        Ok(r) => r,
+        Err(_) => Some("no result within 20 s: parsing / extending / rendering does not terminate (or is absurdly slow) on this input".into()),
+    }
+}
+
+fn check_c07_inner(inputs: &[Vec<u8>], trim: bool, expand: bool, check_end: bool, cap: usize) -> Option<String> {
     let inputs = inputs.to_vec();
     let r = std::panic::catch_unwind(move || {
         let mk = |d: &Vec<u8>| {
@@ -1098,6 +1147,59 @@ fn search_c07(tier: &str, seed: u64) {
         for u in uni.iter() {
             texts.push(format!("{}{}{}", "x".repeat(len), u, u));
             texts.push(format!(" {}{}", "y".repeat(len), u));
+        }
+    }
+    // deterministic big documents: 300 child / attribute names that collide after identifier conversion, 300 repetitions
+    // of one element, 300 distinct siblings, nesting depth 200
+    {
+        let seps = ['.', '-', '_'];
+        let mut colliding: Vec<String> = Vec::new();
+        let mut frontier: Vec<String> = vec![String::new()];
+        while colliding.len() < 300 {
+            let mut next = Vec::new();
+            for f in &frontier {
+                for c in seps {
+                    let mut g = f.clone();
+                    g.push(c);
+                    colliding.push(format!("a{}b", g));
+                    next.push(g);
+                }
+            }
+            frontier = next;
+        }
+        colliding.truncate(300);
+        let mut kids = String::from("<r>");
+        for nm in &colliding {
+            kids.push_str(&format!("<{nm}/>"));
+        }
+        kids.push_str("</r>");
+        let mut attrs = String::from("<r><e");
+        for nm in &colliding {
+            attrs.push_str(&format!(" {nm}=\"v\""));
+        }
+        attrs.push_str("/></r>");
+        let mut rep = String::from("<r><p>");
+        for _ in 0..300 {
+            rep.push_str("<c/>");
+        }
+        rep.push_str("</p><p/></r>");
+        let mut wide = String::from("<r>");
+        for i in 0..300 {
+            wide.push_str(&format!("<n{i} a{i}=\"v\">t</n{i}>"));
+        }
+        wide.push_str("</r>");
+        let reps: Vec<Vec<u8>> = (0..40).map(|_| "<r><c/></r>".as_bytes().to_vec()).collect();
+        let mut cases: Vec<Vec<Vec<u8>>> = vec![vec![kids.into_bytes()], vec![attrs.into_bytes()], vec![rep.clone().into_bytes()], vec![wide.into_bytes()], reps];
+        cases.push(vec![rep.clone().into_bytes(), rep.into_bytes()]);
+        for inputs in cases {
+            let key = inputs.iter().map(|x| hex(&x[..x.len().min(64)])).collect::<Vec<_>>().join(";");
+            stats.note(&key);
+            if let Some(e) = check_c07(&inputs, false, false, true, 8192) {
+                let refs: Vec<&[u8]> = inputs.iter().map(|x| x.as_slice()).collect();
+                witness_bytes("C07", &refs, &e);
+                stats.print("deterministic big documents (300 colliding identifiers, 300 repetitions, 300 siblings, 40 documents)", "");
+                std::process::exit(0);
+            }
         }
     }
     let n = if thorough { 40000 } else { 4000 };
@@ -1173,7 +1275,7 @@ fn search_c07(tier: &str, seed: u64) {
             break;
         }
     }
-    stats.print("seeded random documents (1-2 per run) whose element names, attribute names and text/CDATA come from pools with multi-byte characters at byte offsets 0-8 and text lengths 0..4095, a third of them byte-mutated, every 97th nested 200 deep; random reader configuration (trim_text, expand_empty_elements, check_end_names, BufReader capacity 1,2,5,64,8192); parse, extend and render with 3 option sets x 2 sort orders under catch_unwind (overflow checks on)", &sample);
+    stats.print("seeded random documents (1-2 per run) whose element names, attribute names and text/CDATA come from pools with multi-byte characters at byte offsets 0-8 and text lengths 0..4095, a third of them byte-mutated, every 97th nested 200 deep; random reader configuration (trim_text, expand_empty_elements, check_end_names, BufReader capacity 1,2,5,64,8192); parse, extend and render with 3 option sets x 2 sort orders under catch_unwind and a 20 s watchdog (overflow checks on); preceded by deterministic big documents: 300 child / attribute names that collide after identifier conversion, 300 repetitions, 300 siblings, 40 documents", &sample);
 }
 
 // ------------------------------------------------------------------------------------------------ C15
